@@ -33,7 +33,7 @@ hashseeds = c08.hashseeds
 
 
 def generate(tier, seed, work, stats):
-    singles = c08.grammar_cases(tier, seed, work, stats, families(tier), [("upper", "ab"), ("alg", "ab"), ("upper", "ab"), ("int", "ab")])
+    singles = c08.grammar_cases(tier, seed, work, stats, families(tier), [("upper", "ab"), ("alg", "ab"), ("subs_lo", "ab"), ("int", "ab"), ("subs_hi", "ab")])
     rnd = random.Random(seed)
     cases = []
     n = len(singles)
@@ -71,6 +71,14 @@ def replay(case):
     from pyformlang.cfg import Terminal
     evs.append(cfgh.result_event("substitute", A, guard.call(lambda: a.substitute({Terminal(t): b}), timeout=4.0),
                                  H=B, L=Lw, t=cfgh.tt(t), same=case["same"]))
+    # the same operations on operands that were queried before (cached analyses must not leak into the results)
+    for g in (a, b):
+        for w in ([], ["a"], ["a", "b"]):
+            guard.call(g.contains, w)
+        guard.call(g.is_empty)
+    for op, fn in (("union", lambda: a.union(b)), ("concatenate", lambda: a.concatenate(b)), ("get_closure", a.get_closure),
+                   ("reverse", a.reverse), ("invert", lambda: ~a)):
+        evs.append(cfgh.result_event(op, A, guard.call(fn, timeout=4.0), L=Lw, aged=True, **({"H": B} if op in ("union", "concatenate") else {})))
     if cfgh.project(a) != A or cfgh.project(b) != B:
         evs.append({"op": "new", "G": cfgh.project(a), "start": sa, "prods": ta, "after": True})
     return evs
